@@ -712,6 +712,11 @@ def index_cases(draw):
         imax = draw(st.one_of(st.integers(1, 30), st.integers(1, 5000)))
         nrand = draw(st.one_of(st.integers(0, imax), st.sampled_from([imax, imax, max(0, imax - 1)])))
         nrand = min(nrand, 400) if imax > 400 and draw(st.booleans()) else nrand
+        if draw(st.integers(0, 7)) == 0:
+            # more distinct indices asked for than exist: the request cannot be honoured and must not be answered
+            # with repeats
+            imax = draw(st.integers(1, 40))
+            nrand = imax + draw(st.integers(1, 5))
     else:
         imax = draw(st.one_of(st.integers(1, 30), st.integers(1, 5000), st.integers(1, 2 ** 62)))
         nrand = draw(st.one_of(st.integers(0, 60), st.integers(0, 2 * min(imax, 300))))
@@ -734,6 +739,14 @@ def check_indices(case, ctx):
             kw["rng"] = np.random.default_rng(case["seed"])
         return must(er.random_indices, imax, nrand, **kw)
 
+    if unique and nrand > imax:
+        kw = {"seed": case["seed"]} if case["how"] == "seed" else {"rng": np.random.default_rng(case["seed"])}
+        r = sut(er.random_indices, imax, nrand, **kw)
+        if not isinstance(r, Raised):
+            vals = [int(v) for v in np.asarray(r).tolist()]
+            require(len(set(vals)) == len(vals) and len(vals) == nrand, "%s: %d unique indices below %d do not "
+                    "exist, yet the call returned %r (repeats) instead of refusing", name, nrand, imax, sorted(vals)[:12])
+        return
     ind = call()
     require(isinstance(ind, np.ndarray) and ind.shape == (nrand,), "%s returned shape %r", name, np.shape(ind))
     require(ind.dtype.kind in "iu", "%s returned dtype %r", name, ind.dtype)
@@ -748,6 +761,8 @@ def check_indices(case, ctx):
 
 def classify_indices(case):
     labs = ["unique:%s" % case["unique"], "how:" + case["how"]]
+    if case["unique"] and case["nrand"] > case["imax"]:
+        labs.append("nt:more-unique-indices-than-exist")
     if case["unique"] and 2 * case["nrand"] > case["imax"]:
         labs.append("nt:unique-dense")
     if case["unique"] and case["nrand"] == case["imax"]:
